@@ -63,6 +63,38 @@ def writeAt {σ : Type} (c : Nat) (v : σ) (i : Nat) (s : σ) : σ := if i = c t
 def flagSet (h : Nat → Option Nat) (i : Nat) (s : Nat → Bool) : Nat → Bool :=
   fun j => s j || (h i == some j)
 
+/-! ### an iteration counter with a limit (`--limit-recursion`) -/
+
+/-- what one evaluation of a recursive query does to its iteration counter -/
+inductive CStep
+  | reset | inc
+  deriving DecidableEq, Repr
+
+/-- a recursive query of depth `d`: the counter starts at 0 and is counted up once per iteration -/
+def recursion (d : Nat) : List CStep := .reset :: List.replicate d .inc
+
+/-- one counter: (current value, largest value it ever had) -/
+def counterStep (s : Nat × Nat) (c : CStep) : Nat × Nat :=
+  match c with
+  | .reset => (0, s.2)
+  | .inc => (s.1 + 1, max s.2 (s.1 + 1))
+
+/-- the class `counter` / `reset` on a SESSION-WIDE field (C12-m23: `tx.recursionCount`): every worker's steps go to the
+    one counter, in the order the scheduler lets them happen -/
+def sharedCounter (tr : List (Nat × CStep)) : Nat × Nat := tr.foldl (fun s e => counterStep s e.2) (0, 0)
+
+/-- the query fails with "exceeded the limit" iff the counter ever was above the limit -/
+def sharedExceeds (L : Nat) (tr : List (Nat × CStep)) : Bool := decide (L < (sharedCounter tr).2)
+
+/-- the class `perEvaluationOnly` (`scope.RecursiveCount = new(int64)`): every evaluation counts in an object of its own -/
+def ownCounters (tr : List (Nat × CStep)) : Nat → Nat × Nat :=
+  tr.foldl (fun st e => fun k => if k = e.1 then counterStep (st k) e.2 else st k) (fun _ => (0, 0))
+
+def ownExceeds (L : Nat) (tr : List (Nat × CStep)) (k : Nat) : Bool := decide (L < (ownCounters tr k).2)
+
+/-- the same steps without any other worker -/
+def seqCounter (l : List CStep) : Nat × Nat := l.foldl counterStep (0, 0)
+
 /-! ### what a shared variable shows after the join, and the two notions of independence -/
 
 /-- the value a variable has after the workers were joined, as a function of how the indices were cut into the
